@@ -45,6 +45,8 @@ pub enum Class {
     GlobalNestedRecordClosures,
     GlobalVariantClosure,
     MatchBoxPayload,
+    BoxedDropped,
+    FactoryCallbackScheduledByLetrecTask,
     // ---- known findings on the pinned tree (rate per dsp call in `rate()`)
     LocalCaptureBound,
     ReturnedBound,
@@ -67,7 +69,7 @@ pub enum Class {
     VariantClosureLocal,
 }
 
-pub const STABLE: [Class; 24] = [
+pub const STABLE: [Class; 26] = [
     Class::LocalNoCapture,
     Class::InplaceCapturing,
     Class::GlobalClosureCalled,
@@ -92,6 +94,8 @@ pub const STABLE: [Class; 24] = [
     Class::GlobalNestedRecordClosures,
     Class::GlobalVariantClosure,
     Class::MatchBoxPayload,
+    Class::BoxedDropped,
+    Class::FactoryCallbackScheduledByLetrecTask,
 ];
 pub const LEAKY: [Class; 19] = [
     Class::LocalCaptureBound,
@@ -142,6 +146,8 @@ impl Class {
             Class::GlobalNestedRecordClosures => "closures-in-a-nested-record-made-by-main",
             Class::NestedTupleClosuresReturned => "closures-in-a-nested-tuple-returned-to-dsp",
             Class::GlobalVariantClosure => "closure-in-a-variant-made-by-main",
+            Class::BoxedDropped => "boxed-value-built-in-dsp-and-dropped-unused",
+            Class::FactoryCallbackScheduledByLetrecTask => "factory-made-callback-scheduled-by-a-letrec-task",
             Class::MatchBoxPayload => "match-projecting-a-boxed-payload-of-a-global-tree",
             Class::AssignGlobalClosure => "closure-assigned-to-a-global-from-dsp",
             Class::IfReturnedClosure => "lambda-selected-by-if-bound-in-dsp",
@@ -188,7 +194,11 @@ impl Class {
     pub fn needs_scheduler(&self) -> bool {
         matches!(
             self,
-            Class::LetrecSelfTask | Class::SchedInlineFromDsp | Class::SchedNamedFromDsp | Class::SchedSelfNamed
+            Class::LetrecSelfTask
+                | Class::SchedInlineFromDsp
+                | Class::SchedNamedFromDsp
+                | Class::SchedSelfNamed
+                | Class::FactoryCallbackScheduledByLetrecTask
         )
     }
 }
@@ -323,6 +333,37 @@ impl Inst {
             Class::InplaceCallsGlobalClosure => (
                 format!("fn mk{i}(q){{\n  |x| x * q\n}}\nlet g{i} = mk{i}({k})\n"),
                 format!("  let r{i} = (|y| g{i}(y) + 1.0)(now);\n"),
+                format!("r{i}"),
+            ),
+            Class::BoxedDropped => {
+                // one-level boxed values of several payload shapes, bound and never used
+                let (ty, ctor) = match n % 5 {
+                    0 => (format!("type rec Bl{i} = Bn{i} | Bc{i}(float, Bl{i})\n"), format!("Bc{i}({k}, Bn{i})")),
+                    1 => (
+                        format!("type rec Bt{i} = Bf{i}(float) | Bd{i}(Bt{i}, float, Bt{i})\n"),
+                        format!("Bd{i}(Bf{i}(1.0), {k}, Bf{i}(3.0))"),
+                    ),
+                    2 => (
+                        format!("type rec Bs{i} = Be{i} | Bm{i}((float,float), Bs{i})\n"),
+                        format!("Bm{i}(({k}, 2.0), Be{i})"),
+                    ),
+                    3 => (
+                        format!("type rec Bw{i} = Bv{i} | Bx{i}(Bw{i}, (float,float), Bw{i})\n"),
+                        format!("Bx{i}(Bv{i}, ({k}, 2.0), Bv{i})"),
+                    ),
+                    _ => (
+                        format!("type rec Br{i} = Bz{i} | By{i}({{gain:float, pan:float}}, Br{i})\n"),
+                        format!("By{i}({{gain = {k}, pan = 2.0}}, Bz{i})"),
+                    ),
+                };
+                (ty, format!("  let bx{i} = {ctor};\n  let r{i} = now;\n"), format!("r{i}"))
+            }
+            Class::FactoryCallbackScheduledByLetrecTask => (
+                format!(
+                    "let fa{i} = 0.0\nfn mkcb{i}(q){{\n  | | {{ fa{i} = fa{i} + q }}\n}}\nlet cb{i} = mkcb{i}({k})\nfn start{i}(){{\n  letrec tk = | | {{\n    cb{i}@(now + 1.0)\n    tk@(now + {p})\n  }}\n  tk@1.0\n}}\nstart{i}()\n",
+                    p = lit((n.max(1) + 1) as f64)
+                ),
+                format!("  let r{i} = fa{i};\n"),
                 format!("r{i}"),
             ),
             Class::GlobalVariantClosure => (
